@@ -67,9 +67,12 @@ Next == /\ Len(doc) < MaxTok
              /\ t = E0 => DepthAt(doc, Len(doc)) > 1            \* the root stays open
              /\ t \in Opens => DepthAt(doc, Len(doc)) < 3
              /\ t[1] = "use" => t[5][1] \notin OpenIds(doc)
+             /\ t[2] # "" => \A i \in 1..Len(doc) : doc[i][2] # t[2]   \* ids are unique (what a duplicate resolves to is not specified)
              /\ doc' = Append(doc, t)
         /\ UNCHANGED cfg
         /\ out' = RenderDoc(Close(doc'), cfg, <<>>)
+\* simulation mode (deeper documents than the exhaustive bound): every behaviour emits its documents of these lengths
+Emit == (Len(doc) = MaxTok \/ 2 * Len(doc) = MaxTok + 2) => PrintT(<<"CASE", doc, cfg, out>>)
 \* ---- laws of the specification -------------------------------------------
 \* rendered shapes appear in document order of their (outermost) source token and never come from hidden subtrees
 NothingFromHidden == \A s \in {k \in 1..Len(out) : TRUE} : out[s][1] \in ShapeTags
